@@ -146,6 +146,17 @@ def _threshold_backward(grad, x, threshold):
     return ewise(lambda g, v: e_where(e_le(v, th), Fraction(0), g), grad.dtype, grad, x)
 
 
+@reg(aten.select_backward.default)
+def _select_backward(grad, input_sizes, dim, index):
+    sizes = [int(conc(v)) for v in input_sizes]
+    out = np.empty(sizes, dtype=object)
+    out[...] = Fraction(0)
+    idx = [slice(None)] * len(sizes)
+    idx[int(dim)] = int(conc(index))
+    out[tuple(idx)] = to_arr(grad)
+    return SymTensor.from_array(out, grad.dtype)
+
+
 @reg(aten.pow.Tensor_Scalar)
 def _pow_ts(a, n):
     n = conc(n)
